@@ -35,6 +35,87 @@ CHECKS = {
     ),
 }
 
+ROW = ("Row state machine of Balancer.__run_pipeline modelled in Lean with every kernel answer (RDKit, MCS search, merge, "
+       "reagent templates, confidence model) as a field of an arbitrary Oracle; ")
+ROWNOTE = (TB + "RDKit/fgutils/xgboost answers are oracle fields (theorems hold for every oracle); pandas/joblib row and id "
+           "plumbing is tied by the stage-by-stage correspondence (11 snapshots per row + statistics) on every run; ")
+CHECKS.update({
+    "C01": dict(
+        text=ROW + "theorem solved_is_balanced: for EVERY oracle, configuration and input a row that ends solved carries a reaction "
+        "the comparator calls Balance (invariants over the 11 stages incl. post-processing and the revert of unbalanced curations); "
+        "composed with C07 (C01_solved_balanced) this is equality of every element count and of the net charge; lifted to any batch "
+        "size (C01_rebalance). The model is tied to the code by comparing every traced row after each stage; the executable "
+        "statement (RDKit balance by atomic number) is evaluated on every returned row.",
+        note=ROWNOTE + "truth = RDKit AddHs atom list by atomic number and formal charge.",
+        technique="Lean 4 invariant proof over the stage machine (any oracle) + differential stage-by-stage correspondence",
+        ref="§5 C01"),
+    "C03": dict(
+        text=ROW + "theorems: declined rows (threshold 0) return exactly the input with a non-empty issue, for every oracle and for "
+        "malformed rows and every batch size; solved rows name one of three methods; with the monitored law that inserted water "
+        "carries no carbon, solved rows have an empty/absent issue and a reaction with product-side carbon surplus is always declined "
+        "(no_late_solve).",
+        note=ROWNOTE + "WaterCarbonLaw is an explicit hypothesis, evaluated on every traced row with inserted water.",
+        technique="Lean 4 invariant proof over the stage machine (any oracle) + differential correspondence",
+        ref="§5 C03"),
+    "C04": dict(
+        text=ROW + "C04_iff: a row is labelled input-balanced iff the comparator and the carbon check call its input balanced, and then the "
+        "reaction is the input, no issue, no confidence — no later stage touches it, for every oracle. Checked on curated balanced "
+        "reactions, reversals, multiples, unions, ionic/heavy cases and near misses against an independent RDKit balance.",
+        note=ROWNOTE + "balance of the input is judged after atom-map removal (C15 links the two for closed-shell molecules).",
+        technique="Lean 4 proof (settled-row invariant, provenance of solved_by) + differential correspondence",
+        ref="§5 C04"),
+    "C05": dict(
+        text="rebalance_eq: for every list of valid/malformed rows and every batch size >= 1, rebalance is the row-wise map (one row per "
+        "input row, in order, each reporting its own input; malformed rows in place, unsolved, with an issue); DataLoader slicing "
+        "modelled incl. the trailing empty batch (chunks_flatten). Real code exercised with every malformed kind at every position as "
+        "list / dict / CSV through the CLI entry point with pass-through columns.",
+        note=ROWNOTE + "exceptions inside a pipeline stage (which would discard a batch) are outside the model and show up as a "
+        "correspondence break.",
+        technique="Lean 4 proof (list algebra of batching) + exhaustive small-scope differential runs",
+        ref="§5 C05"),
+    "C18": dict(
+        text="C18_statistics_agree / C18_attribution: reaction count = input rows, balanced count = #input-balanced, confident count = "
+        "#solved by MCS, mcs_applied = #unsolved before the MCS stage, solved <= applied, and (under the two monitored laws) no solved "
+        "count below the rows attributed to the method — per row and summed over any batch partition; model statistics compared with "
+        "the real stats dict of every traced batch.",
+        note=ROWNOTE + "laws WaterCarbonLaw and RbLaw are hypotheses of C18_attribution only, monitored on every traced row.",
+        technique="Lean 4 proof (per-row lemmas lifted to sums) + differential correspondence of statistics",
+        ref="§5 C18"),
+    "C15": dict(
+        text="Both regular expressions of remove_atom_mapping modelled as left-to-right scanners over List Char; theorems: the removal acts "
+        "token-wise on well-formed bracket tokens, no map class survives, idempotence, and the only tokens that change are map classes and "
+        "bracket atoms of the finite shape [X]/[XH]/[XHd]; the chemical half is a table regenerated from RDKit (6 480 valence classes) "
+        "proved safe by decide +kernel except the listed oxo-hydride classes (known finding). Scanners tested against CPython re "
+        "exhaustively on small alphabets; statement = RDKit identity of every molecule before/after.",
+        note=TB + "RDKit valence perception in the generated table; ASCII-only digits (Python \\d also accepts non-ASCII digits).",
+        technique="Lean 4 proofs over scanner models + decide +kernel over a regenerated valence table + differential vs CPython re",
+        ref="§5 C15"),
+    "C16": dict(
+        text="Recursive functional-group matcher modelled statement by statement; C16_renumber_invariant proved for every injective "
+        "relabelling and every neighbour-list reordering, every config table; fuel irrelevance, completeness (every embedding is found), "
+        "soundness for tree patterns without nearby cycles (C16_sound_partial) with kernel-decided witnesses that full soundness is false "
+        "(known finding); config table regenerated from the source and checked by decide +kernel.",
+        note=TB + "RDKit substructure match is the reference of the executable statement; pattern graphs come from the repo's own config.",
+        technique="Lean 4 proofs (induction on fuel / pattern) + generated-table obligations + differential correspondence",
+        ref="§5 C16"),
+    "C17": dict(
+        text="normalize_smiles / wc_similarity control flow modelled with canonicalisation and fingerprints as oracles; "
+        "C17_sort_perm_invariant (all token lists, duplicates included), normal form invariant under reordering and respelling, "
+        "idempotence, identical variants score 1, symmetry and range from the monitored fingerprint laws; witness that the two-component "
+        "key is not invariant. Explicit-hydrogen spellings are a known finding.",
+        note=TB + "RDKit canonical SMILES and fingerprints are oracles with laws evaluated on every recorded answer.",
+        technique="Lean 4 proofs (sorting/permutation) + differential correspondence + metamorphic statement on the real code",
+        ref="§5 C17"),
+    "C19": dict(
+        text="RuleImputeManager modelled as a state machine; Inv preserved by every step and reachable from empty by any history; frame "
+        "theorem for any start state; rejections leave the state unchanged; removal removes only the named entry; recorded composition is "
+        "the true one (via C07). Data obligations over the regenerated shipped databases (automated rules satisfy Inv; rules_manager does "
+        "so modulo the two listed duplicates = known finding).",
+        note=TB + "RDKit validity/atom lists are oracle parameters recorded per SMILES.",
+        technique="Lean 4 invariant proof over operation histories + decide +kernel data obligations + exhaustive small-scope correspondence",
+        ref="§5 C19"),
+})
+
 NOT_YET = "check not built yet in this session (model layer pending); see DESIGN.md §11 build order"
 
 
